@@ -333,10 +333,28 @@ class C19(Prop):
                     fails.append({"what": "generated argparse function does not end by returning the parser", "name": d.name})
             if sorted(names) != sorted(sig):
                 fails.append({"what": "generated definition does not have the parameters of its source object", "name": d.name, "want": sig, "got": names})
+            else:
+                # ... and every literal default of the source signature belongs to the same parameter afterwards
+                pos = fdef.args.args
+                src_defaults = dict(zip([a.arg for a in pos[len(pos) - len(fdef.args.defaults):]], fdef.args.defaults))
+                src_defaults.update({a.arg: dv for a, dv in zip(fdef.args.kwonlyargs, fdef.args.kw_defaults) if dv is not None})
+                got_defaults = interface_defaults(c["type"], d)
+                for pn, dv in src_defaults.items():
+                    try:
+                        want = ast.literal_eval(dv)
+                    except Exception:
+                        continue
+                    if want is None or pn not in got_defaults:
+                        continue
+                    have = got_defaults[pn]
+                    if not (type(have) is type(want) and have == want):
+                        fails.append({"what": "a default of the source signature is not the default of the same parameter in the generated definition", "name": d.name, "param": pn, "want": repr(want), "got": repr(have)})
         return fails
 
     def classify(self, c, fl):
-        if fl.get("what") == "gen raised" and c.get("annotated"):
+        # (measured on the unchanged tree: annotated callables make gen raise SyntaxError - the text "<class 'int'>" parsed
+        # as a type - or IndexError - an empty default under such a type; nothing else, and never without annotations)
+        if fl.get("what") == "gen raised" and c.get("annotated") and str(fl.get("outcome", "")).split(":")[1:2] in (["SyntaxError"], ["IndexError"]):
             return "C19-D18-annotated-callable-raises"
         return None
 
@@ -349,6 +367,41 @@ def _argparse_stmt_ok(x):
     if isinstance(x, ast.Expr) and isinstance(x.value, ast.Call) and ast.unparse(x.value.func) == "argument_parser.add_argument":
         return True
     return isinstance(x, ast.Return)
+
+
+_ABSENT = object()
+
+
+def interface_defaults(type_, node):
+    """{parameter name: literal default (or _ABSENT)} of a generated definition, read from its syntax tree; names whose
+    default is not a literal are left out"""
+    out = {}
+
+    def lit(v):
+        try:
+            return ast.literal_eval(v)
+        except Exception:
+            return None
+
+    if type_ == "class":
+        for s in node.body:
+            if isinstance(s, ast.AnnAssign) and isinstance(s.target, ast.Name):
+                out[s.target.id] = _ABSENT if s.value is None else lit(s.value)
+    elif type_ == "function":
+        pos = node.args.args
+        for a in pos + node.args.kwonlyargs:
+            out[a.arg] = _ABSENT
+        for a, dv in zip(pos[len(pos) - len(node.args.defaults):], node.args.defaults):
+            out[a.arg] = lit(dv)
+        for a, dv in zip(node.args.kwonlyargs, node.args.kw_defaults):
+            if dv is not None:
+                out[a.arg] = lit(dv)
+    else:
+        for s in ast.walk(node):
+            if isinstance(s, ast.Call) and isinstance(s.func, ast.Attribute) and s.func.attr == "add_argument" and s.args:
+                kw = {k.arg: k.value for k in s.keywords}
+                out[s.args[0].value.lstrip("-")] = lit(kw["default"]) if "default" in kw else _ABSENT
+    return out
 
 
 def interface_names(type_, node):
